@@ -216,6 +216,14 @@ def r1_scan(program, rep):
              _inside(b_.node.ast, lp) and T._bind_term(b_) == CAND and
              b_.var != (lp.target.id if isinstance(lp.target, ast.Name)
                         else None)]
+    if not takes:
+        # no assignment of the scanned position to the position variable
+        # inside the loop: the loop's own variable is the position (for /
+        # else, break) or the position is taken some other way
+        raise AnalysisError("_assign_field: the scan does not hand the "
+                            "position it accepts to another variable "
+                            "(position = candidate); that form of the "
+                            "first-fit scan is not read")
     okc = okm = False
     if len(takes) == 1:
         tk = takes[0]
